@@ -60,9 +60,16 @@ def register(R):
     # builds the tree and the critical value from the reference window; resets the epoch (proved separately? no: opaque
     # partitioner + bootstrap) -- ASSUMED contract, its effect on the fields is what the code visibly does
     # the Monte-Carlo critical value: ASSUMED (a real number, nothing modified); the bounded tier re-draws it under the seed
-    R.contract(KD + "._get_critical_kld", tags=("C09",), modular=True, params={"ref_counts": "List[Nat]", "sample_size": "Int"},
-               result="Real", ensures=[], modifies=[], check_invariant=False, assume_invariant=False,
-               ghost_update=["self.ghost.boot_n = sample_size"])
+    # verified per receiver class with the bootstrap loop abstracted (its body is not verified; recorded as an assumption):
+    # the tail - the entropies and np.quantile - returns a real number, nothing is modified, no exception escapes the tail
+    CK = dict(tags=("C09",), params={"ref_counts": "List[Nat]", "sample_size": "Int"},
+              result="Real", ensures=[], modifies=[], check_invariant=False, assume_invariant=False,
+              ghost_update=["self.ghost.boot_n = sample_size"], calls={"pandas.DataFrame": "any"},
+              loops={0: {"abstract": True, "index": "k0", "havoc_locals": ["b_dist_pairs", "b_sample", "b_hist1", "b_hist2"],
+                         "types": {"b_dist_pairs": "AnyList"}, "invariant": []}})
+    R.contract(KD + "._get_critical_kld", modular=True, verified_by=[KS + "._get_critical_kld", KB + "._get_critical_kld"], **CK)
+    R.contract(KS + "._get_critical_kld", **CK)
+    R.contract(KB + "._get_critical_kld", **CK)
     # C17: a smaller alpha never lowers the critical value.  Two runs of the real function on the same leaf counts and
     # sample size, differing in self.alpha only; the bootstrap loop is abstracted (its body is not verified here) and shown
     # not to read alpha (dependency analysis), so both runs collect the same distribution pairs; the tail - the list of
